@@ -93,7 +93,11 @@ impl ReturnType for UnaryOperation {
     fn return_type(&self) -> Type {
         let return_type = self.instruction.return_type();
         match self.op {
-            UnaryOperator::Sum | UnaryOperator::Product => return_type.iter_element().unwrap(),
+            // an iterator of `!` (e.g. `[]~`) takes the int branch of sum/product at run time
+            UnaryOperator::Sum | UnaryOperator::Product => match return_type.iter_element().unwrap() {
+                Type::Never => Type::Int,
+                element => element,
+            },
             UnaryOperator::Not | UnaryOperator::UnaryMinus => return_type,
             UnaryOperator::Indirection => indirection::return_type(return_type),
             UnaryOperator::FunctionCall => return_type.return_type().unwrap(),
